@@ -23,11 +23,20 @@ RULE = ("1-3 Directory volumes (any mix of read-only / writable / marked full, r
         "generated 64 MiB blocks in thorough; GET/PUT with the buffer pool exhausted and the client gone (Gb, Pb) and "
         "PUT with a body shorter than its Content-Length (Ps); unit-level cases for compareReaderWithBuf (random chunkings "
         "incl. zero-length reads and EOF with the last chunk, identical/flipped/truncated/extended/other contents, "
-        "collision verdict) and getWithPipe (stub block reader, every way of ending). A case is non-trivial when it "
+        "collision verdict) and getWithPipe (stub block reader, every way of ending); "
+        "every volume-set class exhaustively (1-3 volumes x read-only mask x placement of intact/corrupt/missing copy = "
+        "258 classes, corruption pattern rotating in quick, all five per class in thorough; read by GET and HEAD, re-PUT, read); "
+        "fault events between the requests of one process (X: a stored copy, typically one that was just served, is "
+        "overwritten in place by a flipped / same-size other / truncated / extended / empty / repaired content with its "
+        "mtime preserved or renewed, then read by GET and HEAD, re-PUT); I/O faults of block paths on the PUT path made "
+        "with file-system means that bind root (immutable file, immutable block directory, directory at the block path, "
+        "file in place of the block directory) on any subset of mounts: Touch / MkdirAll / TempFile / rename failures, "
+        "GenericError 500. A case is non-trivial when it "
         "plants at least one non-intact copy or contains a PUT; distinct = distinct case line")
 ASSUMPTIONS = [
     "sequential requests: the file under a block path does not change between stat and read (races are C02/C04)",
-    "Touch, MkdirAll, TempFile, rename, the uncontended flock on a replaced file and reads of an existing regular file do not fail (run as the volume owner)",
+    "I/O failures on the PUT path are modelled per block path as `noTouch` / `noWrite` (Model/C01_Fault.lean) and produced for real by immutable files and directories and by directories/files in the way; a failure *after* the rename, failing reads of an existing regular file and a failing flock are not modelled",
+    "fault events (X) change the bytes of one block path between two requests, never during one (races are C02/C04)",
     "the uint32 round-robin counter does not wrap (fewer than 2^32 PUTs per process)",
     "collision-freeness only where stated: C01_put_ack_then_get returns the PUT bytes under `forall x, hash x = h -> x = b`",
 ]
@@ -275,9 +284,10 @@ def _volflags(rng):
 def _mkcase(vols, reqs, kinds):
     """vols: list of (flags, repl, [(hash, Content)]); reqs: list of strings."""
     vs = []
-    for flags, repl, files in vols:
+    for flags, repl, files, *more in vols:
         fs = ",".join(f"{h}={c.spec}" for h, c in files) or "-"
-        vs.append(f"{flags}:{repl}:{fs}")
+        faults = ":" + ",".join(more[0]) if more and more[0] else ""
+        vs.append(f"{flags}:{repl}:{fs}{faults}")
     case = "c01 " + "/".join(vs) + " " + ";".join(reqs)
     _KINDS[case] = kinds
     return case
@@ -371,8 +381,44 @@ def _sweep_cases(rng, fac, n):
             vols = [("r", 1, [(b.md5, c)]), ("w", 2, [])]
         else:
             vols = [("w", 1, [(b.md5, c)])]
-        reqs = [f"G:{b.md5}", f"P:{b.md5}:{c.spec}", f"P:{b.md5}:{b.spec}", f"G:{b.md5}"]
+        # GET and HEAD alternate as the first reader of the corrupt copy; both read after the repair
+        reqs = [f"{'H' if i % 2 else 'G'}:{b.md5}", f"P:{b.md5}:{c.spec}", f"P:{b.md5}:{b.spec}", f"G:{b.md5}",
+                f"H:{b.md5}"]
         out.append(_mkcase(vols, reqs, [k, "intact"] if layout == 0 else [k]))
+    return out
+
+
+def _placement_cases(rng, fac, sizes, all_kinds):
+    """the volume-set quantifier, exhaustively: 1-3 volumes x every read-only/writable mask x every
+    placement of {intact copy, corrupt copy, no copy} over the volumes (6 + 36 + 216 = 258 classes), the
+    corruption pattern of each corrupt copy rotating through (or, with all_kinds, once for each of) bit flip,
+    truncation, appended bytes, another valid block, zero-length file; read by GET and by HEAD, re-PUT, read"""
+    out = []
+    patterns = ["flip", "trunc", "append", "other", "empty"]
+    rot = rng.randrange(5)
+    for nvol in (1, 2, 3):
+        for mask in range(2 ** nvol):
+            for place in range(3 ** nvol):
+                for kk in (range(5) if all_kinds else (None,)):
+                    b = fac.fresh(0 if rng.random() < 0.05 else rng.choice(sizes))
+                    vols, kinds = [], []
+                    for i in range(nvol):
+                        what = (place // 3 ** i) % 3
+                        if what == 0:
+                            files, k = [(b.md5, b)], "intact"
+                        elif what == 1:
+                            if kk is None:
+                                rot += 1
+                            c, k = _corrupt(rng, fac, b, patterns[(rot if kk is None else kk + i) % 5])
+                            files = [(b.md5, c)]
+                        else:
+                            files, k = [], "missing"
+                        kinds.append(k)
+                        vols.append(("r" if (mask >> i) & 1 else "w", rng.choice([0, 1, 2]), files))
+                    first = ["G", "H"] if rng.random() < 0.5 else ["H", "G"]
+                    reqs = [f"{first[0]}:{b.md5}", f"{first[1]}:{b.md5}", f"P:{b.md5}:{b.spec}", f"G:{b.md5}",
+                            f"H:{b.md5}"]
+                    out.append(_mkcase(vols, reqs, kinds))
     return out
 
 
@@ -506,6 +552,49 @@ def _decay_case(rng, fac, sizes):
     return _mkcase(vols, reqs, kinds)
 
 
+def _iofault_case(rng, fac, sizes):
+    """I/O faults on the PUT path, made with file-system means that bind root as well: an immutable file
+    (i: Touch and replacing it fail), a directory at the block path (d: rename fails), a regular file in
+    place of the block directory (n: MkdirAll fails), an immutable block directory (l: TempFile fails) —
+    on any subset of the mounts, next to intact / corrupt / missing copies, with PUTs of the block (the
+    error branches of CompareAndTouch and PutBlock incl. GenericError), wrong bodies, GET and HEAD"""
+    nvol = rng.choice([1, 2, 2, 3, 3])
+    b = fac.fresh(0 if rng.random() < 0.05 else rng.choice(sizes))
+    h = b.md5
+    vols, kinds = [], []
+    forced = rng.randrange(nvol)
+    for i in range(nvol):
+        flags = _volflags(rng)
+        if i == forced:
+            flags = "w"
+        k = rng.choice(["intact", "intact", "flip", "trunc", "append", "other", "empty", "missing", "missing", "missing"])
+        c, k = _corrupt(rng, fac, b, k)
+        files = [(h, c)] if c is not None else []
+        if i == forced or rng.random() < 0.5:
+            ft = rng.choice(["i", "i", "l"] if files else ["d", "n", "l"])
+        else:
+            ft = None
+        kinds.append(k + ("+" + ft if ft else ""))
+        vols.append((flags, rng.choice([0, 1, 2, 3]), files, [ft + h] if ft else []))
+    reqs = []
+    for _ in range(rng.choice([2, 3, 4, 5])):
+        r = rng.random()
+        if r < 0.2:
+            reqs.append(f"G:{h}")
+        elif r < 0.3:
+            reqs.append(f"H:{h}")
+        elif r < 0.8:
+            reqs.append(f"P:{h}:{b.spec}")
+        elif r < 0.9:
+            c, _ = _corrupt(rng, fac, b, rng.choice(["flip", "append", "empty", "other"]))
+            reqs.append(f"P:{h}:{c.spec}")
+        else:
+            nb = fac.fresh(rng.choice(sizes))
+            reqs.append(f"P:{nb.md5}:{nb.spec}")
+    reqs.append(f"G:{h}")
+    return _mkcase(vols, reqs, kinds)
+
+
 def _chunking(rng, data):
     """random cut of `data` into reads, with occasional zero-length reads"""
     out, i = [], 0
@@ -561,14 +650,19 @@ def generate(rng, tier):
     cases += _unit_cases(rng, 150, 100) if tier == "quick" else _unit_cases(rng, 4000, 2500)
     litf, symf = LitFactory(rng), SymFactory(rng)
     sizes = SMALL_SIZES + list(range(0, 97))
-    n_random = 600 if tier == "quick" else 16000
+    n_random = 500 if tier == "quick" else 16000
     for i in range(n_random):
         cases.append(_random_case(rng, litf, sizes, collision=(i % 20 == 19)))
+    # every volume-set class: count x read-only mask x placement of intact/corrupt/missing copies
+    cases += _placement_cases(rng, litf, sizes, tier != "quick")
     # copies that change between the requests of one server process (after having been served)
-    for i in range(60 if tier == "quick" else 1500):
+    for i in range(60 if tier == "quick" else 800):
         cases.append(_decay_case(rng, litf, sizes))
     for i in range(6 if tier == "quick" else 60):
         cases.append(_decay_case(rng, symf, [1025, 4096, 65537, (1 << 20) + 1]))
+    # I/O faults of block paths on the PUT path (immutable file / directory, directory or file in the way)
+    for i in range(70 if tier == "quick" else 1000):
+        cases.append(_iofault_case(rng, litf, sizes))
     # exhaustive flip/truncation sweeps
     for n in ([rng.randint(1, 24)] if tier == "quick" else [1, 2, 16, 17, rng.randint(3, 64), 64]):
         cases += _sweep_cases(rng, litf, n)
@@ -618,13 +712,13 @@ def _parse_case(case):
     _, vs, rs = case.split(" ")
     vols = []
     for v in vs.split("/"):
-        flags, repl, fs = v.split(":", 2)
+        flags, repl, fs, *more = v.split(":")
         files = {}
         if fs != "-":
             for f in fs.split(","):
                 h, spec = f.split("=", 1)
                 files[h] = _content_info(spec)
-        vols.append({"flags": flags, "repl": int(repl), "files": files})
+        vols.append({"flags": flags, "repl": int(repl), "files": files, "faults": more[0].split(",") if more else []})
     return vols, rs.split(";")
 
 
@@ -754,8 +848,19 @@ def describe(cases, impl):
             d["malformed"] = d.get("malformed", 0) + 1
             continue
         d["volumes"][str(len(vols))] = d["volumes"].get(str(len(vols)), 0) + 1
+        # class of the volume set w.r.t. the first hash asked for: per volume r/w + I(ntact)/C(orrupt)/M(issing)
+        h0 = next((r.split(":")[1] for r in reqs if not r.startswith("X:") and ":" in r), None)
+        if h0 and not any(v.get("faults") for v in vols):
+            key = "/".join(v["flags"][0] + ("M" if h0 not in v["files"] else
+                                             "I" if v["files"][h0][0] == h0 and v["files"][h0][1] <= BLOCKSIZE else "C")
+                           for v in vols)
+            _cls = d.setdefault("_classes", {})
+            _cls[key] = _cls.get(key, 0) + 1
         for v in vols:
             d["flags"][v["flags"]] = d["flags"].get(v["flags"], 0) + 1
+            for ft in v.get("faults", []):
+                d.setdefault("io_faults", {})
+                d["io_faults"][ft[0]] = d["io_faults"].get(ft[0], 0) + 1
             for _, (m, n) in v["files"].items():
                 d["max_content_bytes"] = max(d["max_content_bytes"], n)
         for k in _KINDS.get(c, []):
@@ -771,6 +876,14 @@ def describe(cases, impl):
                     continue
                 key = r.split(":", 1)[0] + res.split(",", 1)[0]
                 d["statuses"][key] = d["statuses"].get(key, 0) + 1
+    cls = d.pop("_classes", {})
+    if cls:
+        by_n = {}
+        for k, n in cls.items():
+            by_n.setdefault(str(k.count("/") + 1), []).append(n)
+        # 6 / 36 / 216 classes exist for 1 / 2 / 3 volumes
+        d["volume_set_classes"] = {n: {"covered": len(v), "of": 6 ** int(n), "min_cases": min(v), "max_cases": max(v)}
+                                   for n, v in sorted(by_n.items())}
     return d
 
 
